@@ -196,7 +196,7 @@ def hist_case(sc):
     for st, rec in zip(sc["steps"], recs):
         op = rec["op"]
         seq = out_seq(rec["writes"])
-        if op in ("sigwinch", "resize_done"):
+        if op in ("sigwinch", "resize_done", "leftover"):
             # urwid's own bookkeeping (a flag, `screen_buf = None`): nothing of the modelled code runs; what
             # it does to the base class' next `draw_screen` reaches the model through `wrote` and `R`
             if rec["out"] or rec["exc"]:
@@ -452,6 +452,25 @@ KNOWN_SCRIPTS = {
                   {"op": "draw", "layout": ["hpile", [[4, ["img", 0]], [None, ["fill", "."]]]]},
                   {"op": "resize_done"},
                   {"op": "draw", "layout": ["hpile", [[1, ["fill", "y"]], [4, ["img", 0]], [None, ["fill", "."]]]]}]},
+    # start() with and without the alternate buffer, on a terminal holding another program's images
+    "start-without-alternate-buffer": {
+        "term": "kitty", "W": 30, "H": 12, "cell": [4, 8],
+        "leftover": [[1, 2, 3, 10, 1, 7], [1, 9, 0, 4, 1, 0]],
+        "widgets": [{"style": "kitty", "iw": 40, "ih": 20, "upscale": True}],
+        "steps": [{"op": "start", "alt": False}, {"op": "stop"},
+                  {"op": "leftover", "pl": [[1, 0, 0, 30, 1, -3]]}, {"op": "start", "alt": True},
+                  {"op": "draw", "layout": ["hpile", [[4, ["img", 0]], [None, ["fill", "."]]]]},
+                  {"op": "stop"}, {"op": "leftover", "pl": [[1, 5, 5, 5, 1, 2]]}, {"op": "start", "alt": False},
+                  {"op": "stop"}, {"op": "start"},
+                  {"op": "draw", "layout": ["hpile", [[1, ["fill", "x"]], [4, ["img", 0]], [None, ["fill", "."]]]]}]},
+    # several widgets created with one and the same non-empty format spec
+    "same-format-spec": {
+        "term": "kitty", "W": 30, "H": 12, "cell": [4, 8],
+        "widgets": [{"style": "kitty", "iw": 40, "ih": 20, "upscale": True, "fmt": "+L"},
+                    {"style": "kitty", "iw": 40, "ih": 20, "upscale": True, "fmt": "+L"},
+                    {"style": "kitty", "iw": 20, "ih": 20, "upscale": True, "fmt": "+L"}],
+        "steps": [{"op": "draw", "layout": ["hpile", [[3, ["img", 0]], [3, ["img", 1]], [3, ["img", 2]], [None, ["fill", "."]]]]},
+                  {"op": "draw", "layout": ["hpile", [[3, ["img", 0]], [1, ["fill", "-"]], [3, ["img", 1]], [None, ["fill", "."]]]]}]},
     "konsole-iterm2-scroll": {
         "term": "konsole", "W": 30, "H": 12, "cell": [4, 8],
         "widgets": [{"style": "iterm2", "iw": 40, "ih": 40, "upscale": True}, {"style": "kitty", "iw": 40, "ih": 20}],
